@@ -6,8 +6,11 @@ import (
 	"io"
 	"log"
 	"os"
+	"strconv"
+	"time"
 
 	"verif/harness/engines"
+	"verif/harness/hx"
 )
 
 func main() {
@@ -20,6 +23,25 @@ func main() {
 	if !ok {
 		fmt.Println("unknown engine", os.Args[1])
 		os.Exit(2)
+	}
+	// time budget (set by the orchestrator below its own kill timeout): when it runs out - typically because a
+	// change to the library makes goroutines spin or block - what has been found so far is written out (exit 3),
+	// so that violations already observed are reported instead of being lost to a timeout
+	if b, err := strconv.Atoi(os.Getenv("VH_BUDGET")); err == nil && b > 0 {
+		out := ""
+		for i, a := range os.Args {
+			if a == "-out" && i+1 < len(os.Args) {
+				out = os.Args[i+1]
+			}
+		}
+		go func() {
+			time.Sleep(time.Duration(b) * time.Second)
+			if r := hx.Current(); r != nil && out != "" {
+				r.Set("budget_exhausted", true)
+				r.Write(out)
+			}
+			os.Exit(3)
+		}()
 	}
 	f(os.Args[2:])
 }
